@@ -172,16 +172,22 @@ def gen_timestep():
 
 
 # ---------------------------------------------------------------- main
+def tok(x):
+    return x if isinstance(x, str) else srat(x)
+
+
 def compare(exp, got, meta):
     if exp[0] == 'err':
         return got == f"err|{exp[1]}", None
     if not got.startswith("ok|") and got != "ok":
         return False, None
     parts = got.split("|")[1:]
-    gl = [[parse_rat(t) for t in p.split()] for p in parts]
-    el = exp[1]
+    gl = [p.split() for p in parts]
+    el = [[tok(t) for t in l] for l in exp[1]]
     while len(gl) < len(el):
         gl.append([])
+    while len(gl) > len(el) and gl[-1] == []:
+        gl.pop()
     if gl == el:
         return True, None
     if meta and meta.get('exact') is False:
@@ -190,9 +196,10 @@ def compare(exp, got, meta):
             return False, None
         k = meta['k']
         worst = Fr(0)
-        for a, b in zip(gl, el):
+        for r, (a, b) in enumerate(zip(gl, el)):
             for i, (x, y) in enumerate(zip(a, b)):
-                if k.denominator == 1 and i % int(k) == 0 and x != y and len(a) == len(gl[0]) and a is gl[0]:
+                x, y = parse_rat(x), parse_rat(y)
+                if r == 0 and k.denominator == 1 and i % int(k) == 0 and x != y:
                     return False, None
                 worst = max(worst, abs(x - y))
         return worst <= Fr(1, 10 ** 12), float(worst)
@@ -213,6 +220,14 @@ def main():
     outs = [l for l in p.stdout.split("\n")]
     if p.returncode != 0:
         print("lean failed:", p.stderr[:2000])
+    if outs and outs[-1] == "":
+        outs.pop()
+    if len(outs) != len(CASES):
+        print(f"PROTOCOL ERROR: {len(CASES)} requests but {len(outs)} responses")
+        return 2
+    if "--show" in sys.argv:
+        for i in range(0, len(CASES), max(1, len(CASES) // 40)):
+            print(CASES[i][1][:150], "=>", outs[i][:150])
     stats = {}
     nfail = 0
     for (sec, line, exp, meta), got in zip(CASES, outs):
@@ -228,7 +243,7 @@ def main():
             nfail += 1
             if nfail <= 15:
                 print("MISMATCH", sec, line)
-                print("   python:", exp if exp[0] == 'err' else [[srat(v) for v in l] for l in exp[1]])
+                print("   python:", exp if exp[0] == 'err' else [[tok(v) for v in l] for l in exp[1]])
                 print("   lean  :", got[:400])
     for sec, st in stats.items():
         print(f"{sec:28s} cases={st['n']:5d} agree={st['ok']:5d} raising={st['err_cases']:4d} "
